@@ -171,6 +171,48 @@ def _cache_key(ctx, model, scope=None):
     ctx.extra["get_cache_key_overrides"] = n
 
 
+def _uncached_container_dispatch(ps, rv):
+    from ..summary import facts_of
+    if not (isinstance(rv, tuple) and rv[0] == "call"
+            and rv[1] in ("Mapper.__call__", "super.__call__")):
+        return False
+    args = rv[2][1:] if rv[1] == "Mapper.__call__" else rv[2]
+    fwd = [e for e in ps.events if e.kind in ("basecall", "supercall", "call")
+           and e.name in ("__call__", "Mapper.__call__")]
+    full = args[:1] == (NODE,) and len(fwd) == 1 and fwd[0].fwd_args and \
+        fwd[0].fwd_kwargs
+    if not full:
+        return False
+    facts = [f for _, pol0, v0 in ps.conds if isinstance(v0, tuple)
+             for f in facts_of(v0, pol0)]
+
+    def container_test(v):
+        if v[0] == "call" and v[1] == "isinstance" and v[2][0] == NODE:
+            return all(c in ("list", "ndarray", "numpy.ndarray", "np.ndarray")
+                       for c in _class_names_of(v[2][1]))
+        return v[0] == "call" and v[1] == "is_numpy_array" and v[2] == (NODE,)
+    # the guard may be a disjunction of container tests taken as a whole
+    for v, pol in facts:
+        if not pol:
+            continue
+        if container_test(v):
+            return True
+        if v[0] == "boolop" and v[1] == "Or" and all(container_test(x)
+                                                    for x in v[2]):
+            return True
+    return False
+
+
+def _class_names_of(c):
+    if c[0] == "lit" and c[1] == "tuple":
+        return [n for x in c[2] for n in _class_names_of(x)]
+    if c[0] == "global":
+        return [c[1]]
+    if c[0] == "attr":
+        return [c[2]]
+    return ["?"]
+
+
 def check_lookaside(ctx, model):
     cm = model.cls(f"{M}:CachedMapper")
     # the look-aside table is created per instance by the constructor and never
@@ -207,6 +249,12 @@ def check_lookaside(ctx, model):
                    "CachedMapper.__call__ can fall off the end")
             continue
         rv = ps.retval
+        # an unhashable container (list, numpy array) cannot be a key: handing
+        # it to the uncached dispatcher, unchanged and with all arguments, is
+        # what the non-memoizing counterpart does (its entries come back
+        # through rec and are memoized there)
+        if _uncached_container_dispatch(ps, rv):
+            continue
         stores = [e for e in ps.events if e.kind == "itemwrite"
                   and e.arg == ("self", "_cache")]
         lookups = [e for e in ps.events if e.kind == "selfattrcall"
@@ -440,6 +488,13 @@ def _variants(ctx, model):
                                                       "rec_fallback"))
         callm = model.lookup(c, "__call__")
         recm = model.lookup(c, "rec")
+        # an entry-point override that only wraps the inherited __call__
+        # (recursion stays bound to CachedMapper's) changes nothing here
+        from ..rules import call_wrapper_result
+        if "__call__" in c.members and recm is not None and recm.owner is cm \
+                and call_wrapper_result(c.members["__call__"]) is not None:
+            own = [m for m in own if m != "__call__"]
+            callm = model.lookup(cm, "__call__")
         ok = (not own and callm is not None and callm.owner is cm
               and recm is not None and recm.owner is cm
               and model.is_subclass(c, b))
